@@ -118,6 +118,9 @@ func (w *world) flush() (bool, error) {
 			if len(n.IQ) == 0 {
 				continue
 			}
+			if rs := n.CS.GetRoundState(); rs.Round > 6 {
+				return progressed, fmt.Errorf("no decision within 6 rounds at height %d (nothing is dropped in these rounds: the proposals are being refused): %s", rs.Height, w.fingerprint())
+			}
 			m, err := w.s.Internal(i)
 			if err != nil {
 				return progressed, fmt.Errorf("node %d internal: %v", i, err)
@@ -158,6 +161,9 @@ func (w *world) redeliver() error {
 // run plays the system until every honest node has committed height target.
 func (w *world) run(target int64) error {
 	for iter := 0; iter < 4000; iter++ {
+		if os.Getenv("BV_DEBUG") != "" && iter%20 == 0 {
+			fmt.Fprintf(os.Stderr, "run(%d) iter %d sent %d: %s\n", target, iter, len(w.sent), w.fingerprint())
+		}
 		if w.minStoreHeight() >= target {
 			return nil
 		}
